@@ -52,6 +52,21 @@ def import_repo():
     return opticomlib
 
 
+USER_GLOBALS = dict(Vpi=2.9, BW=3.1e9, ER=7.0, ER_dB=7.0, loss=2.0, loss_dB=2.0, bias=1.3, alpha=0.3, beta_2=-5.0, beta_3=0.2, gamma=2.0, length=7.0,
+                    G=3.0, NF=4.5, r=0.3, T=77.0, R_load=11.0, responsivity=0.3, i_d=3e-9, Fn=2.0, M=8, Vout=0.7, pol="y", lw=1e6, rin=-150.0, df=1e9,
+                    phi_max=0.5, D=3.0, order=9, seed=5, n_pol=2, c=1.0, m=3, pulse_shape="rz", include_noise="thermal")
+
+
+def pollute_gv(gv, on=True):
+    """gv stores arbitrary user keywords (gv(sps=.., R=.., Vpi=..), as the library's own examples do). A device called with explicit
+    arguments, or documented defaults, must not depend on them: set (on) or remove (off) a collection of plausible user globals."""
+    for k, v in USER_GLOBALS.items():
+        if on:
+            setattr(gv, k, v)
+        elif k in vars(gv):
+            delattr(gv, k)
+
+
 def protect(*objs):
     """Write-protect every numpy buffer reachable from the given arguments (ndarrays, signal containers, bit sequences, lists/tuples of
     them): a library function that works in place on its input then raises inside the library, which the harness reports as a violation.
